@@ -114,6 +114,12 @@ pub struct ForgePlan {
     pub two_parts: bool,
     pub subscribers: u8,
     pub status: u8,
+    /// the receiving store holds the secret keys of all authors (it is the forged author's own node)
+    #[serde(default)]
+    pub own_authors: bool,
+    /// the receiving replica holds the document read-only
+    #[serde(default)]
+    pub read_only: bool,
 }
 
 fn non_curve_bytes() -> [u8; 32] {
@@ -306,6 +312,8 @@ impl Scenario for Forge {
             two_parts: rng.chance(1, 2),
             subscribers: rng.below(3) as u8,
             status: rng.below(3) as u8,
+            own_authors: rng.chance(1, 3),
+            read_only: rng.chance(1, 4),
         }
     }
 
@@ -405,7 +413,16 @@ async fn run(plan: &ForgePlan, cx: &mut Cx) -> Res {
     // two identical nodes: path (a) direct, path (b) in a message
     for path in ["direct", "in-message"] {
         let mut sut = Sut::new(plan.backend)?;
-        ensure_doc(sut.store(), 0)?;
+        if plan.read_only {
+            sut.store().import_namespace(iroh_docs::Capability::Read(ns)).map_err(|e| harness(format!("{e:#}")))?;
+        } else {
+            ensure_doc(sut.store(), 0)?;
+        }
+        if plan.own_authors {
+            for a in w.authors.iter() {
+                sut.store().import_author(a.clone()).map_err(|e| harness(format!("{e:#}")))?;
+            }
+        }
         // a second document lives in the same store; nothing is ever written to it legitimately
         ensure_doc(sut.store(), 1)?;
         let node = Node::start(sut.store.take().unwrap());
